@@ -96,6 +96,13 @@ CHECKS["C09"] = dict(
     technique="forward must-dataflow (post-condition facts at normal returns, flag-conditioned facts) + sibling agreement over the clang CFG",
 )
 
+CHECKS["C04"] = dict(
+    text="Static decision of the identity clause of C04 ('a pairing with the identity element in either slot is the identity of the target group', also at arbitrary positions inside a multi-pairing) over all pairing entry points pp_map_{tatep,weilp,oatep}_k{1,2,8,12,16,18,24,48,54} and their multi-pairing forms, which compile under every configuration header but of which the suite runs only the default curve's: forward must-dataflow with branch atoms over the exploded CFG shows that every Miller-loop call of a single pairing is dominated by the not-identity tests of both operands or of the points they were normalised from (MIL-GUARD), that multi-pairings increment the compaction counter and fill the compacted arrays only under both tests and hand exactly those local arrays and that counter to the loop (MIL-COMPACT), and that on every normal return where no loop ran the result was last set to one, through copies, products, squares, inverses and final exponentiations of one (ID-ONE). Bilinearity, non-degeneracy, the order of pairing values and equality of a multi-pairing with the product of pairings are algebraic and are not decided.",
+    design_ref="DESIGN.md section 3 (C04)",
+    note="Trusted: clang parser/CFG, extractor, the name patterns of pairing entry points, Miller loops, normalisers and unit-preserving field operations; that rewriting only the affine coordinates x, y of a point keeps it finite (the Frobenius twist inside the Weil pairings). Entry points that only delegate have no obligations. Validated on every run by miniatures in sa/selftest/c04.c.",
+    technique="forward must-dataflow (guard dominance at Miller-loop call sites, unit-value tokens) + sibling agreement over the clang CFG",
+)
+
 NOT_APPLICABLE = {
     "C10": "every clause is an equality of ring elements for all operand values; no guard, ordering or ownership structure whose violation is visible in the code's shape, and lazy-reduction bounds need a relational numeric domain that goto-analyzer's intervals cannot carry across the *_low calls",
     "C11": "group law, [k]Q, Frobenius eigenvalue and cofactor image are algebraic identities over runtime values; the structural clauses (decoders, buffers, regularity) of the ep2..ep8 siblings are decided under C07, C08 and C20",
